@@ -63,6 +63,17 @@ class Result:
     def decide(self, cond: bool, rule, where, func, construct, detail=""):
         return self.add(rule, where, func, construct, DISCHARGED if cond else VIOLATED, detail)
 
+    def adopt(self, other: "Result", rules, as_rule: str, why: str) -> int:
+        """Take over the obligations of `rules` decided by another property's check under the rule `as_rule` of this
+        property (a mechanism owned by one property that is a necessary condition of this one as well)."""
+        n = 0
+        for o in other.obligations:
+            if o.rule in rules:
+                self.add(as_rule, o.where, o.func, f"[{other.prop} {o.rule}] {o.construct}", o.status,
+                         (o.detail + " -- " if o.detail else "") + why, o.trivial)
+                n += 1
+        return n
+
     def count(self, rule: str, statuses=(DISCHARGED, VIOLATED)) -> int:
         return sum(1 for o in self.obligations if o.rule == rule and o.status in statuses)
 
